@@ -37,6 +37,13 @@ func (c15) Gen(r *Rng, tier string, run int) *Trace {
 	if r.Bool(0.3) {
 		g.emit(Op{Obj: src, M: "SetFIFO", Args: []Val{vBool(true)}}, true)
 	}
+	if r.Bool(0.3) {
+		// the lock paths run in the sequential configuration too (a lock left held or asked for twice is detected)
+		g.emit(Op{Obj: src, M: "SetMutex"}, true)
+	}
+	if r.Bool(0.3) {
+		g.emit(Op{Obj: dst, M: "SetMutex"}, true)
+	}
 	if r.Bool(0.15) {
 		g.emit(Op{Obj: dst, M: "SetNoNesting", Args: []Val{vBool(true)}}, true)
 	}
